@@ -46,6 +46,6 @@ Emit == PrintT(<<"SCRIPT", ToJson(hist')>>)
 EmitLeaf == Len(hist') = MaxHist => PrintT(<<"SCRIPT", ToJson(hist')>>)
 SimEmit == Len(hist) = MaxHist => PrintT(<<"SCRIPT", ToJson(hist)>>)
 
-KeyOK == KeyRespectsMeaning(Fam)
-FamSize == PrintT(<<"FAMSIZE", Cardinality(Fam)>>)
+\* (state-level on purpose: TLC reports a violated constant-level invariant differently)
+KeyOK == cap >= 0 /\ KeyRespectsMeaning(Fam)
 =============================================================================
